@@ -889,3 +889,53 @@ def entries(summary, attr=None, name=None):
         elif e.kind == "assign" and name is not None and e.name == name:
             from_value(e.value, e.guard, e.node, name)
     return out
+
+
+# ---------------------------------------------------------------------- choices under an assumption, factors of a product
+def assume(t, facts):
+    """the value of a choice tree when the given conditions are known to hold: choices on one of them (or its negation) are resolved"""
+    facts = set(facts)
+    neg = {T.b_not(f_) for f_ in facts}
+
+    def f(x):
+        if x[0] == "phi":
+            cs = set(T.conjuncts(x[1]))
+            if cs and cs <= facts:
+                return x[2]
+            if x[1] in neg or any(c in neg for c in cs):
+                return x[3]
+            nc = set(T.conjuncts(T.b_not(x[1])))
+            if nc and nc <= facts:
+                return x[3]
+        return None
+    return T.transform(t, f)
+
+
+def extra_factor(raw, corrected, candidates=()):
+    """K with raw * K == corrected: one of the candidates, or the product of the atoms that corrected has and raw has not"""
+    for k in list(candidates) + [T.num(-1)]:
+        try:
+            if T.mul(raw, k) == corrected:
+                return k
+        except Exception:
+            pass
+
+    def atoms(t):
+        out = set()
+        for x in T.subterms(t):
+            if x[0] == "poly":
+                for m, c in x[1]:
+                    for a, e in m:
+                        out.add(a)
+        return out
+    extra = [a for a in atoms(corrected) if a not in atoms(raw)]
+    if 1 <= len(extra) <= 3:
+        k = T.num(1)
+        for a in sorted(extra, key=repr):
+            k = T.mul(k, a)
+        try:
+            if T.mul(raw, k) == corrected:
+                return k
+        except Exception:
+            pass
+    return None
